@@ -17,6 +17,7 @@ package main
 
 import (
 	"go/ast"
+	"go/constant"
 	"go/token"
 	"go/types"
 	"sort"
@@ -395,6 +396,11 @@ func checkRecogniserTotality(r *Run, tp, op, cp, fe *packages.Package, cg *CallG
 		}
 	}
 	r.Floor(rule, 12)
+	var recs []*types.Func
+	for _, e := range entries {
+		recs = append(recs, e.rec)
+	}
+	checkRecogniserSymbolPairs(r, cg, recs)
 }
 
 func total(m map[string]int) int {
@@ -519,4 +525,234 @@ func checkOrderRestoration(r *Run, tp *packages.Package) {
 		}
 	}
 	r.Floor(rule, 4)
+}
+
+// checkTranslatorCopies (C01-R7): the translator snapshots its scope around nested contexts (pattern predicates,
+// isolated projections) and restores it afterwards.  A Copy/Snapshot/Clone method that builds the copy with a
+// composite literal must give every field of the struct: a field left out silently reverts to its zero value after
+// the restore (PathDirectionReversed lost → a reversed path is rendered back to front only when a pattern predicate
+// happens to sit in the same WHERE).
+func checkTranslatorCopies(r *Run, pkgs ...*packages.Package) {
+	const rule = "C01-R7-translator-copy-complete"
+	for _, p := range pkgs {
+		info := p.TypesInfo
+		for _, f := range p.Syntax {
+			for _, d := range f.Decls {
+				fd, ok := d.(*ast.FuncDecl)
+				if !ok || fd.Body == nil || fd.Recv == nil {
+					continue
+				}
+				switch strings.ToLower(fd.Name.Name) {
+				case "copy", "snapshot", "clone":
+				default:
+					continue
+				}
+				fn, _ := info.Defs[fd.Name].(*types.Func)
+				if fn == nil {
+					continue
+				}
+				recvNamed := namedOf(fn.Type().(*types.Signature).Recv().Type())
+				if recvNamed == nil {
+					continue
+				}
+				st, ok := recvNamed.Underlying().(*types.Struct)
+				if !ok {
+					continue
+				}
+				// the literal of the receiver's type that is returned
+				var lit *ast.CompositeLit
+				ast.Inspect(fd.Body, func(n ast.Node) bool {
+					ret, ok := n.(*ast.ReturnStmt)
+					if !ok || len(ret.Results) != 1 {
+						return true
+					}
+					e := ast.Unparen(ret.Results[0])
+					if u, ok := e.(*ast.UnaryExpr); ok && u.Op == token.AND {
+						e = ast.Unparen(u.X)
+					}
+					if cl, ok := e.(*ast.CompositeLit); ok && namedOf(info.TypeOf(cl)) == recvNamed {
+						lit = cl
+					}
+					return true
+				})
+				if lit == nil {
+					continue
+				}
+				keyed := map[string]bool{}
+				positional := 0
+				for _, el := range lit.Elts {
+					if kv, ok := el.(*ast.KeyValueExpr); ok {
+						if k, ok := kv.Key.(*ast.Ident); ok {
+							keyed[k.Name] = true
+						}
+					} else {
+						positional++
+					}
+				}
+				for i := 0; i < st.NumFields(); i++ {
+					fld := st.Field(i)
+					construct := shortPkg(p.PkgPath) + "." + recvNamed.Obj().Name() + "." + fd.Name.Name + ":" + fld.Name()
+					if keyed[fld.Name()] || positional == st.NumFields() {
+						r.Pass(rule, construct, lit.Pos(), "carried into the copy")
+					} else {
+						r.Fail(rule, construct, lit.Pos(), "%s.%s() builds its copy without field %s: after a snapshot/restore of the translator's scope the field is back to its zero value, so queries that trigger the snapshot are translated differently from those that do not", recvNamed.Obj().Name(), fd.Name.Name, fld.Name())
+					}
+				}
+			}
+		}
+	}
+	r.Floor(rule, 10)
+}
+
+// checkLikeEscaping (C01-R8): CONTAINS / STARTS WITH / ENDS WITH on a string literal are lowered to LIKE.  PostgreSQL's
+// LIKE gives a meaning to three characters — %, _ and the escape character \ — so the literal is faithful only if all
+// three are escaped. The replacer that builds the pattern must list each of them as a key with an escaped value.
+func checkLikeEscaping(r *Run, tp *packages.Package) {
+	const rule = "C01-R8-like-escape"
+	info := tp.TypesInfo
+	n := 0
+	for _, f := range tp.Syntax {
+		ast.Inspect(f, func(x ast.Node) bool {
+			call, ok := x.(*ast.CallExpr)
+			if !ok {
+				return true
+			}
+			fn := calleeOf(info, call)
+			if fn == nil || funcFullName(fn) != "strings.NewReplacer" {
+				return true
+			}
+			pairs := map[string]string{}
+			for i := 0; i+1 < len(call.Args); i += 2 {
+				k, okK := info.Types[call.Args[i]]
+				v, okV := info.Types[call.Args[i+1]]
+				if okK && okV && k.Value != nil && v.Value != nil && k.Value.Kind() == constant.String && v.Value.Kind() == constant.String {
+					pairs[constant.StringVal(k.Value)] = constant.StringVal(v.Value)
+				}
+			}
+			if _, escapesWildcard := pairs["%"]; !escapesWildcard {
+				if _, alt := pairs["_"]; !alt {
+					return true // not a LIKE-pattern escaper
+				}
+			}
+			n++
+			fd := enclosingFuncDecl(tp, call.Pos())
+			where := "package level"
+			if fd != nil {
+				where = funcDeclName(fd)
+			}
+			for _, meta := range []string{"\\", "%", "_"} {
+				construct := where + ":escape(" + meta + ")"
+				if v, ok := pairs[meta]; ok && v == "\\"+meta {
+					r.Pass(rule, construct, call.Pos(), "%q is escaped as %q", meta, v)
+				} else {
+					r.Fail(rule, construct, call.Pos(), "the LIKE pattern builder does not escape %q (pairs: %v): PostgreSQL reads it as a wildcard or as the escape character, so a literal containing it matches different rows than the Cypher string predicate", meta, pairs)
+				}
+			}
+			return true
+		})
+	}
+	if n == 0 {
+		r.Undecide("C01-R8: no LIKE-pattern escaper (strings.NewReplacer over %% / _) found in package translate")
+	}
+}
+
+// checkRecogniserSymbolPairs (C01-R5, relational clause): a recogniser that binds the symbols of two pattern nodes in
+// the same scope must compare them.  Whether two positions of a pattern carry the same variable is part of the
+// pattern's meaning ((s)-[*]->(s) is a cycle constraint); a hand-built statement that has no place for that
+// constraint may only be used when the recogniser has established that the symbols differ (or handles equality).
+func checkRecogniserSymbolPairs(r *Run, cg *CallGraph, recs []*types.Func) {
+	const rule = "C01-R5-recogniser-symbols"
+	n := 0
+	for _, rec := range recs {
+		fd := cg.Decl[rec]
+		if fd == nil || fd.Body == nil {
+			continue
+		}
+		info := cg.PkgOf[rec].TypesInfo
+		// does result #idx of callee return the Symbol of a node pattern's variable?
+		returnsNodeSymbol := func(callee *types.Func, idx int) bool {
+			cd := cg.Decl[callee]
+			if cd == nil || cd.Body == nil {
+				return false
+			}
+			cinfo := cg.PkgOf[callee].TypesInfo
+			found := false
+			ast.Inspect(cd.Body, func(m ast.Node) bool {
+				ret, ok := m.(*ast.ReturnStmt)
+				if !ok || idx >= len(ret.Results) {
+					return true
+				}
+				if sel, ok := ast.Unparen(ret.Results[idx]).(*ast.SelectorExpr); ok && sel.Sel.Name == "Symbol" {
+					if inner, ok := ast.Unparen(sel.X).(*ast.SelectorExpr); ok && inner.Sel.Name == "Variable" {
+						if namedName(cinfo.TypeOf(inner.X)) == "NodePattern" {
+							found = true
+						}
+					}
+				}
+				return true
+			})
+			return found
+		}
+		var syms []*types.Var
+		ast.Inspect(fd.Body, func(m ast.Node) bool {
+			as, ok := m.(*ast.AssignStmt)
+			if !ok || len(as.Rhs) != 1 {
+				return true
+			}
+			call, ok := ast.Unparen(as.Rhs[0]).(*ast.CallExpr)
+			if !ok {
+				return true
+			}
+			callee := calleeOf(info, call)
+			if callee == nil {
+				return true
+			}
+			for i, l := range as.Lhs {
+				id, ok := l.(*ast.Ident)
+				if !ok {
+					continue
+				}
+				v, ok := info.Defs[id].(*types.Var)
+				if !ok {
+					continue
+				}
+				if b, ok := v.Type().Underlying().(*types.Basic); ok && b.Kind() == types.String && returnsNodeSymbol(callee.Origin(), i) {
+					syms = append(syms, v)
+				}
+			}
+			return true
+		})
+		for i := 0; i < len(syms); i++ {
+			for j := i + 1; j < len(syms); j++ {
+				a, b := syms[i], syms[j]
+				if !(a.Parent().Contains(b.Pos()) || b.Parent().Contains(a.Pos())) {
+					continue
+				}
+				n++
+				compared := false
+				ast.Inspect(fd.Body, func(m ast.Node) bool {
+					be, ok := m.(*ast.BinaryExpr)
+					if !ok || (be.Op != token.EQL && be.Op != token.NEQ) {
+						return true
+					}
+					x, okx := ast.Unparen(be.X).(*ast.Ident)
+					y, oky := ast.Unparen(be.Y).(*ast.Ident)
+					if okx && oky {
+						ox, oy := info.Uses[x], info.Uses[y]
+						if (ox == a && oy == b) || (ox == b && oy == a) {
+							compared = true
+						}
+					}
+					return true
+				})
+				construct := shortFuncName(rec) + ":" + a.Name() + "~" + b.Name()
+				if compared {
+					r.Pass(rule, construct, b.Pos(), "the two node symbols are compared")
+				} else {
+					r.Fail(rule, construct, b.Pos(), "the recogniser binds the symbols of two pattern nodes (%s, %s) and never compares them: a pattern that uses the same variable in both places, such as (s)-[*1..]->(s), is accepted and the hand-built statement drops the constraint that both ends are the same node", a.Name(), b.Name())
+				}
+			}
+		}
+	}
+	r.Note("%s: %d symbol pairs examined", rule, n)
 }
